@@ -334,11 +334,13 @@ pub fn exec_l(env: &Env, x: &ProofObj, cache: Option<(&ProofObj, usize)>, p: usi
     Ok(Outcome { verdict, facts, output, secs: t0.elapsed().as_secs_f64() })
 }
 
-/// How the aggregation slot handed to a call was filled.
-pub struct SlotFill<'a> {
+/// One earlier call `A(left, right, Some(&mut slot))` of the history that changed the content
+/// of the aggregation slot.
+pub struct SlotStep<'a> {
     pub left: &'a ProofObj,
     pub right: &'a ProofObj,
     pub p: usize,
+    pub cross: bool,
 }
 
 fn call_aggregation(
@@ -380,65 +382,115 @@ fn call_aggregation(
     })
 }
 
+/// Everything observable of the slot's content: the stored fingerprint, the preprocessed
+/// columns and the preprocessed commitment of the cached prover data.
+fn slot_content(slot: &Option<AggregationPrepCache<Cfg>>) -> Option<String> {
+    let c = slot.as_ref()?;
+    let d = &c.circuit_prover_data;
+    let mut np: Vec<(String, u64)> = d
+        .non_primitive_columns
+        .iter()
+        .map(|(k, v)| (format!("{k:?}"), fnv64(format!("{v:?}").as_bytes())))
+        .collect();
+    np.sort();
+    let commit = d.prover_data.common.preprocessed.as_ref().map(|g| format!("{:?}|{:?}", g.commitment, g.matrix_to_instance));
+    Some(format!(
+        "fp={}|prim={:016x}|np={:?}|commit={:016x}",
+        fp_str(&c.circuit_fingerprint),
+        fnv64(format!("{:?}", d.primitive_columns).as_bytes()),
+        np,
+        fnv64(format!("{commit:?}").as_bytes()),
+    ))
+}
+
+/// The cached `prover` is opaque; the metadata it stamps on the proof of the call that filled
+/// the slot stands in for its configuration.
+fn prover_proxy(r: &Result<Result<RecursionOutput<Cfg>, VerificationError>, String>) -> String {
+    match r {
+        Ok(Ok(o)) => format!("{:?}|{:?}", o.0.table_packing, o.0.alu_variant),
+        _ => "no-output".to_string(),
+    }
+}
+
 /// `A(x, y, slot)`: 2-to-1 aggregation of the ordered pair under params `p`.
-/// `slot`: `None` = no cache argument; `Some(None)` = an empty slot; `Some(Some(fill))` = the
-/// slot as left behind by the real call `A(fill.left, fill.right, Some(&mut None))`.
+/// `slot`: `None` = no cache argument; `Some(steps)` = a slot object that has been through
+/// the calls `steps` (in order) before — empty `steps` = an empty slot. `expected_key` is the
+/// content key the harness registered for that slot state; the replayed slot must reproduce it.
 pub fn exec_a(
     env: &Env,
     x: &ProofObj,
     y: &ProofObj,
-    slot: Option<Option<SlotFill<'_>>>,
+    slot: Option<(&[SlotStep<'_>], Option<&str>)>,
     p: usize,
     cross: bool,
-) -> Result<Outcome, String> {
+) -> Result<AOutcome, String> {
     let t0 = Instant::now();
     let mut facts = CacheFacts::default();
     let (cnt_now, dig_now) = a_circuit_id(env, x, y)?;
     facts.fp_now = fp_str(&cnt_now);
 
     let mut slot_obj: Option<AggregationPrepCache<Cfg>> = None;
+    let mut cur_content: Option<String> = None;
+    let mut cur_key: Option<String> = None;
     let mut before: Option<Rc<p3_circuit_prover::CircuitProverData<Cfg>>> = None;
-    if let Some(Some(fill)) = &slot {
-        // replay of the filling call on this thread (deterministic prover, no RNG in the config)
-        let r = call_aggregation(env, fill.left, fill.right, fill.p, false, Some(&mut slot_obj));
-        match r {
-            Ok(Ok(_)) => {}
-            other => {
+    if let Some((steps, expected_key)) = &slot {
+        // replay of the slot's history on this thread (deterministic prover, no RNG in the config)
+        let mut last_changing: Option<&SlotStep<'_>> = None;
+        for st in steps.iter() {
+            let r = call_aggregation(env, st.left, st.right, st.p, st.cross, Some(&mut slot_obj));
+            if !matches!(r, Ok(Ok(_))) {
                 return Err(format!(
-                    "replay of the slot-filling aggregation failed although it succeeded before: {:?}",
-                    other.map(|r| r.map(|_| ()).map_err(|e| format!("{e:?}")))
+                    "replay of a slot-filling aggregation failed although it succeeded before: {:?}",
+                    r.map(|r| r.map(|_| ()).map_err(|e| format!("{e:?}")))
                 ));
             }
+            let content = slot_content(&slot_obj);
+            if content != cur_content {
+                cur_key = content.as_ref().map(|c| format!("{c}|{}", prover_proxy(&r)));
+                cur_content = content;
+                last_changing = Some(st);
+            }
         }
-        let cached = slot_obj.as_ref().ok_or("slot empty after a filling call")?;
-        let (cnt_fill, dig_fill) = a_circuit_id(env, fill.left, fill.right)?;
-        if cached.circuit_fingerprint != cnt_fill {
+        if cur_key.as_deref() != *expected_key {
             return Err(format!(
-                "HARNESS: replica of the aggregation circuit has counters {} but the implementation stored {}",
-                fp_str(&cnt_fill),
-                fp_str(&cached.circuit_fingerprint)
+                "HARNESS: the replayed slot content differs from the registered one (value dependence or nondeterminism): {:?} vs {:?}",
+                cur_key, expected_key
             ));
         }
-        facts.given = true;
-        facts.same_circuit = dig_fill == dig_now;
-        facts.same_params = fill.p == p;
-        facts.fp_equal = cnt_fill == cnt_now;
-        facts.fp_cache = fp_str(&cnt_fill);
-        before = Some(Rc::clone(&cached.circuit_prover_data));
+        if let (Some(cached), Some(st)) = (slot_obj.as_ref(), last_changing) {
+            let (cnt_fill, dig_fill) = a_circuit_id(env, st.left, st.right)?;
+            facts.given = true;
+            facts.same_circuit = dig_fill == dig_now;
+            facts.same_params = st.p == p;
+            // the fingerprint the implementation compares is the stored one
+            facts.fp_equal = cached.circuit_fingerprint == cnt_now;
+            facts.fp_cache = fp_str(&cached.circuit_fingerprint);
+            before = Some(Rc::clone(&cached.circuit_prover_data));
+        }
     }
 
     let res = match &slot {
         None => call_aggregation(env, x, y, p, cross, None),
         Some(_) => call_aggregation(env, x, y, p, cross, Some(&mut slot_obj)),
     };
+    let mut slot_changed = false;
+    let mut slot_key_after = None;
     if slot.is_some() {
         facts.slot_filled_after = slot_obj.is_some();
         if let (Some(b), Some(after)) = (&before, slot_obj.as_ref()) {
-            facts.reused = Rc::ptr_eq(b, &after.circuit_prover_data);
+            facts.reused = Rc::ptr_eq(b, &after.circuit_prover_data) && matches!(res, Ok(Ok(_)));
         }
-        if let (Some(after), true) = (slot_obj.as_ref(), matches!(res, Ok(Ok(_)))) {
-            // validation of the replica against the implementation
-            if !facts.reused && after.circuit_fingerprint != cnt_now {
+        let content_after = slot_content(&slot_obj);
+        slot_changed = content_after != cur_content;
+        slot_key_after = if slot_changed {
+            content_after.as_ref().map(|c| format!("{c}|{}", prover_proxy(&res)))
+        } else {
+            cur_key.clone()
+        };
+        if let (Some(after), true, true) = (slot_obj.as_ref(), matches!(res, Ok(Ok(_))), slot_changed) {
+            // validation of the harness replica against the implementation: a freshly stored
+            // fingerprint must be the counters of the replica of this call's circuit
+            if after.circuit_fingerprint != cnt_now {
                 return Err(format!(
                     "HARNESS: replica counters {} != fingerprint stored by the implementation {}",
                     fp_str(&cnt_now),
@@ -450,7 +502,19 @@ pub fn exec_a(
     let (verdict, output) = judge(env, p, res);
     drop(before);
     drop(slot_obj);
-    Ok(Outcome { verdict, facts, output, secs: t0.elapsed().as_secs_f64() })
+    Ok(AOutcome {
+        outcome: Outcome { verdict, facts, output, secs: t0.elapsed().as_secs_f64() },
+        slot_changed,
+        slot_key_after,
+    })
+}
+
+pub struct AOutcome {
+    pub outcome: Outcome,
+    /// the observable content of the slot differs from what it was before the call
+    pub slot_changed: bool,
+    /// content key of the slot after the call (`None`: empty / no slot argument)
+    pub slot_key_after: Option<String>,
 }
 
 pub type Shared = Arc<ProofObj>;
